@@ -257,6 +257,8 @@ class SimFS:
         self.fds = {}
         self.fd_raw = {}
         self.fake_fds = {}
+        self._sched_n = {}
+        self.sched_points = 0
         self.nsys = 0
         self.dead = False        # after a crash: nothing reaches the disk any more
         self.crashed = False
@@ -310,6 +312,8 @@ class SimFS:
         self.fds = {}
         self.fd_raw = {}
         self.fake_fds = {}
+        self._sched_n = {}
+        self.sched_points = 0
         self.nsys = 0
         self.dead = False
         self.crashed = False
@@ -359,6 +363,20 @@ class SimFS:
         """Account for one primitive; this is where crash/interrupt faults strike."""
         if self.dead:
             return      # the process is gone: whatever Python's unwinding still calls never happened
+        sk = self.knobs.get("sched_key")
+        if sk is not None:
+            import threading
+            th = threading.current_thread()
+            if th is not threading.main_thread():
+                # netconan has no threads; if a change introduces worker threads, their syscalls are delayed by a
+                # keyed pattern so that two executions with different keys see different interleavings (best effort:
+                # the interpreter's own thread switching is not under the simulator's control)
+                import time as _t
+                n = self._sched_n.get(th.name, 0) + 1
+                self._sched_n[th.name] = n
+                self.sched_points += 1
+                if hashlib.md5(("%s:%s:%d" % (sk, th.name.split("_")[-1], n)).encode()).digest()[0] < 80:
+                    _t.sleep(0.004)
         self.nsys += 1
         self.clock += 1
         if not self.dead:
